@@ -88,6 +88,10 @@ sites! {
     53 => RQ_INEXACT, "round_quot.inexact";
     54 => APPROX_FRAC_LIMIT, "approx.frac_limit";
     55 => APPROX_MAGN_LIMIT, "approx.magn_limit";
+    56 => KNUTH_Q1_RHAT_EQ_B, "knuth.q1.rhat_eq_b";
+    57 => KNUTH_Q0_RHAT_EQ_B, "knuth.q0.rhat_eq_b";
+    58 => KNUTH_Q1_EQ, "knuth.q1.eq";
+    59 => KNUTH_Q0_EQ, "knuth.q0.eq";
 }
 
 #[allow(clippy::declare_interior_mutable_const)]
